@@ -5360,7 +5360,7 @@ impl<'a> SpanRound<'a> {
     /// case of span rounding below, we do a more involved check for this.)
     #[inline]
     pub(crate) fn rounding_may_change_span_ignore_largest(&self) -> bool {
-        self.smallest > Unit::Nanosecond || self.increment > 1
+        self.smallest > Unit::Nanosecond || self.increment != 1
     }
 
     /// Does the actual span rounding.
